@@ -5,5 +5,7 @@
 EXTENDS Lazy
 MCCells == {"c1", "c2"}
 ProtoSafe == [c \in MCCells |-> IF c = "c1" THEN "locked" ELSE "eager"]
+ProtoLRU == [c \in MCCells |-> IF c = "c1" THEN "lru" ELSE "locked"]
+ProtoRWLRU == [c \in MCCells |-> IF c = "c1" THEN "rwlru" ELSE "locked"]
 ProtoRacy == [c \in MCCells |-> IF c = "c1" THEN "locked" ELSE "racy"]
 =============================================================================
